@@ -88,9 +88,19 @@ func GenUniverse(t *rapid.T, o UniverseOpts, c *Case) map[string]UBinding {
 	var names []string
 	reg := map[string]bool{}
 	dirs := map[string][]hx.DirUse{}
+	// crossed names: the first object type is NAMED like the Go type that is bound to the second one
+	// (and is itself bound, explicitly, to another Go type): a name is not a binding once there is one
+	crossed := o.Abstract && k >= 2 && rapid.IntRange(0, 3).Draw(t, "crossedNames") == 0
+	c.CrossedNames = crossed
 	for i, gn := range goNames {
 		mode := rapid.SampledFrom([]string{"name", "go-short", "go-pkg", "go-full", "register"}).Draw(t, "bind"+gn)
 		name := fmt.Sprintf("T%d", i)
+		if crossed && i < 2 {
+			mode = rapid.SampledFrom([]string{"go-pkg", "go-full", "register"}).Draw(t, "bindCrossed"+gn)
+			if i == 0 {
+				name = goNames[1]
+			}
+		}
 		switch mode {
 		case "name":
 			name = gn
